@@ -3,6 +3,9 @@ CONSTANTS
   ReqV4 = {}
   ReqV6 = {}
   ReqDual = {"d1", "d2"}
+  ReqFail = {}
+  ReqFail6 = {}
+  ErrorPath = "plain"
   Reloads = {"m1", "m2"}
   ToB = {"m1"}
   Bad = {}
